@@ -24,6 +24,8 @@ Oracle (reference = three-valued closure of vf/batchgen.py, no Loki code):
     the reference file graph itself is cyclic; recursion (recurse_to_modules / recurse_to_procedures) reaches no
     item outside must-have + don't-care + enclosing modules, each at most once per file;
   * SEQUENCE and PLAN produce the same log.
+Refusals: a RuntimeError for an ExternalItem under strict; "requires Module to be complete" when a non-procedure
+item is processed without enable_imports (documented limitation: only control-flow dependencies are parsed).
 """
 import collections
 import shutil
@@ -235,6 +237,7 @@ def run_state(project, root, cspec, perm):
         strategies.insert(0, ('SEQUENCE', ProcessingStrategy.SEQUENCE))
     has_external = any(k == 'External' for k, _ in bg.observe_graph(sched)['nodes'].values())
     nruns = 0
+    refused = [0]
     for man in MANIFESTS:
         logs = {}
         for sname, strat in strategies:
@@ -246,6 +249,14 @@ def run_state(project, root, cspec, perm):
             except Exception as e:   # pylint: disable=broad-except
                 if has_external and 'external' in str(e).lower():
                     logs[sname] = None
+                    continue
+                if 'to be complete' in str(e) and not made['config']['default'].get('enable_imports') \
+                        and set(FILTERS[man['filter']]) - {'Procedure'}:
+                    # documented limitation (transform.rst): without enable_imports only control-flow
+                    # dependencies are parsed and processed; an explicit "requires ... to be complete" for a
+                    # non-procedure item is a refusal, not a verdict
+                    logs[sname] = None
+                    refused[0] += 1
                     continue
                 cause = e.__cause__ or e
                 msg = bg.role_text(project, f'{type(cause).__name__}: {cause}')[:90]
@@ -356,7 +367,7 @@ def run(ctx):
             ('P5: n<=3, feature-free projects, 8 core layouts; configuration deviations of weight 2; sorted discovery order',
              make_units(f0core, 2, 2, 'id')),
         ]
-    deadline = ctx.elapsed() + (100 if ctx.quick else 780)
+    deadline = br.stage_deadline(ctx)
     total = collections.Counter()
     failures, done_stages, exhaustive = [], [], True
     for title, units in stages:
